@@ -578,9 +578,9 @@ def run(ck):
                       'long programs: bvalue() and compound arguments are at most %d links away from a task whose hash is '
                       'cached (jug itself cannot hash deeper ones: notes/strengthen_loader.txt F1)' % lg.Deep.NEAR]
     rng = ck.rng
-    nprog = ck.n(200, 2600)
-    ndeep = ck.n(10, 60)
-    niter = ck.n(10, 80)
+    nprog = ck.n(200, 1800)
+    ndeep = ck.n(10, 50)
+    niter = ck.n(10, 60)
     cap = ck.n(36, 80)
     nexec = ck.n(2, 4)
     home = os.environ.get('HOME')
@@ -647,6 +647,10 @@ def run(ck):
     if fails and len(fails) > 3:
         ck.count('execute: further programs on which model and jug disagree (not pinned)', len(fails) - 3)
     ck.case_total = nobs                   # evaluations = (jugfile, store state) pairs, not programs
+    # many workers x barrier phases: lock-step runs of the real `jug execute` reload loop by several workers on programs with
+    # barrier()/bvalue(), validated against Model/ExecCase.v bexec_case_ok (harness/execbarrier.py; notes/EXEC_BARRIER_SPEC.md)
+    from . import execbarrier
+    execbarrier.tie(ck)
 
 
 def cases_by_size(ck, name, typ, chk, cases, runs):
@@ -706,6 +710,9 @@ def pin_exec(ck, pr):
 
 # ---------------------------------------------------------------------------- replay
 def replay(obj):
+    if obj.get('kind2') == 'exec-barrier':
+        from . import execbarrier
+        return execbarrier.replay(obj)
     prog = obj['prog'] if obj.get('prog') else lg.unflatten(obj['prog_flat'])
     rc = 0
     with jugrun.scratch_dir('jugv_c14r_') as root:
